@@ -4,6 +4,7 @@ import CanvasProofs.Lemmas.C18W
 import CanvasProofs.Lemmas.C18TU
 import CanvasProofs.Lemmas.C18TJ
 import Mathlib.Tactic.Linarith
+import Mathlib.Tactic.Ring
 
 /-! # C18 — Embedded fonts and glyph paths reproduce the laid-out text
 
@@ -243,5 +244,47 @@ theorem topath_count (gs : List G) (x y : Int) : (penRun x y gs).1.length = gs.l
   induction gs generalizing x y with
   | nil => simp [penRun]
   | cons g gs ih => simp [penRun, ih]
+
+/-! ## (f) scaling: the outline of a text at face scale `f` is the unit-scale outline times `f` -/
+
+theorem glyphPts_scale (f px py : Int) (o : List (Int × Int)) :
+    glyphPts f px py o = scalePts f (glyphPts 1 px py o) := by
+  simp only [glyphPts, scalePts, List.map_map]
+  apply List.map_congr_left
+  intro c _
+  simp only [Function.comp]
+  congr 1 <;> ring
+
+/-- `toPath` at scale `f` = `f ·` (`toPath` at scale 1): same glyphs, same relative geometry, for every
+face offset, glyph list and outline — the result does not depend on anything else (no `ppem`, no history). -/
+theorem toPath_scale_unit (f x y : Int) (gs : List (G × List (Int × Int))) :
+    toPathPts f x y gs = scalePts f (toPathPts 1 x y gs) := by
+  induction gs generalizing x y with
+  | nil => simp [toPathPts, scalePts]
+  | cons go gs ih =>
+    obtain ⟨g, o⟩ := go
+    simp only [toPathPts]
+    rw [ih, glyphPts_scale]
+    simp [scalePts]
+
+/-- `toPath_scale_linear`: outlines of two faces of one font are proportional, `f₀ · outline(f) = f · outline(f₀)`
+(i.e. outline(size s) = s/s₀ · outline(size s₀)). -/
+theorem toPath_scale_linear (f f0 x y : Int) (gs : List (G × List (Int × Int))) :
+    scalePts f0 (toPathPts f x y gs) = scalePts f (toPathPts f0 x y gs) := by
+  rw [toPath_scale_unit f, toPath_scale_unit f0]
+  simp only [scalePts, List.map_map]
+  apply List.map_congr_left
+  intro p _
+  simp only [Function.comp]
+  congr 1 <;> ring
+
+/-- every glyph contributes exactly its outline points (nothing dropped, nothing shared between glyphs) -/
+theorem toPath_point_count (f x y : Int) (gs : List (G × List (Int × Int))) :
+    (toPathPts f x y gs).length = (gs.map (fun go => go.2.length)).sum := by
+  induction gs generalizing x y with
+  | nil => simp [toPathPts]
+  | cons go gs ih =>
+    obtain ⟨g, o⟩ := go
+    simp [toPathPts, glyphPts, ih]
 
 end C18
